@@ -1,5 +1,12 @@
 //@include prelude/header.rs
 verus! {
+// Unit cycles — C16 (cycle part: every reported path is a real closed dependency chain), the termination clause of
+// C12 for the explicit-stack DFS, and the per-file filter.
+//   L1: resolver.rs compute_fixture_cycles: every reported FixtureCycle is `cycle_ok` (closed chain of the name graph G,
+//       attached to the first definition of its last name); no two reported cycles have the same de-duplication key;
+//       the `while let Some(..) = stack.pop()` loop terminates (lexicographic measure dfs_a, dfs_b).
+//       resolver.rs detect_fixture_cycles_in_file == the cached cycles filtered by file, order preserved.
+//   proved library: prelude/cycles_spec.rs;  assumed: prelude/cycles_std.rs, prelude/hashmap_ext.rs (+ the shims)
 global size_of usize == 8;  // A6: 64-bit target
 pub mod pre {
 use super::*;
@@ -9,12 +16,17 @@ use super::*;
 //@include prelude/hashset.rs
 //@include prelude/hashmap.rs
 //@include prelude/hashmap_ext.rs
+//@include prelude/atomic.rs
+//@include prelude/arc.rs
 //@include prelude/dbview.rs
 //@include prelude/cycles_std.rs
+//@include prelude/cycles_spec.rs
 } // mod pre
 use pre::*;
 
-//@dbstruct definitions
+broadcast use {vstd::std_specs::iter::filter_postcondition};
+
+//@dbstruct_arc definitions file_cache available_fixtures_cache cycle_cache definitions_version
 
 pub mod resolver { // mirrors crate::fixtures::resolver so that `super::types::…` paths in the source resolve
 use super::*;
@@ -28,18 +40,168 @@ impl FixtureDatabase {
 @rename cloned vp_cloned
 @rename sort vp_sort
 @rename join vp_join
+@rename to_vec vp_to_vec
 @nocontinue 2
 @closure filter:1 |d: &&String| -> (b: bool) ensures b == self.definitions.m().contains_key(d@)
 @closure position:last |f: &String| -> (b: bool) ensures b == (f@ == dep@)
 @derefcmp f dep
+@sig
+    ensures
+        // soundness: every reported path is a real closed dependency chain of the name graph
+        cycles_ok(self.defs(), r@),
+        // no two reported cycles have the same de-duplication key
+        exists|seen: Set<Seq<char>>| keys_ok(r@, seen),
+@start
+    let ghost defs = self.defs();
+    let ghost m0 = self.definitions.m();
 @loopvar 1 it1
+@loop 1
+    invariant
+        defs == self.defs(), m0 == self.definitions.m(),
+        forall|j: int| 0 <= j < it1.seq().len() ==> m0.contains_key((#[trigger] it1.seq()[j]).k@) && *it1.seq()[j].v == m0[it1.seq()[j].k@],
+        graph_ok(dg_view(dep_graph.m()), defs), fdefs_ok(fixture_defs.m(), defs),
+@loopstart 1
+    let ghost nm = entry.k@;
+    let ghost dg0 = dep_graph.m();
+    let ghost fd0 = fixture_defs.m();
+    proof { assert(m0.contains_key(nm) && *entry.v == m0[nm]); }
+@after valid_deps 1
+    proof {
+        assert(defs[nm][0] == dv(def));
+        assert forall|j: int| 0 <= j < valid_deps@.len() implies edge(defs, nm, #[trigger] strs_v(valid_deps@)[j]) by {
+            let x = valid_deps@[j];
+            let ds = def.dependencies@;
+            assert(exists|i: int| 0 <= i < ds.len() && (#[trigger] ds[i])@ == x@ && m0.contains_key(x@));
+            let i = choose|i: int| 0 <= i < ds.len() && (#[trigger] ds[i])@ == x@ && m0.contains_key(x@);
+            assert(strs_v(ds)[i] == x@);
+            assert(dv(def).dependencies.contains(x@));
+        }
+    }
+@loopend 1
+    proof {
+        if dep_graph.m() != dg0 {
+            let g = dg_view(dep_graph.m());
+            assert forall|n: Seq<char>, j: int| g.contains_key(n) && 0 <= j < g[n].len() implies edge(defs, n, #[trigger] g[n][j]) by {
+                if n != nm { assert(dg0.contains_key(n) && dg_view(dg0)[n] == g[n]); }
+            }
+        }
+        assert(fdefs_ok(fixture_defs.m(), defs));
+    }
+@before visited 1
+    let ghost g = dg_view(dep_graph.m());
 @loopvar 2 it2
+@loop 2
+    invariant
+        defs == self.defs(), g == dg_view(dep_graph.m()),
+        graph_ok(g, defs), fdefs_ok(fixture_defs.m(), defs),
+        cycles_ok(defs, cycles@), keys_ok(cycles@, seen_cycles.s()),
+@after rec_stack 1
+    let ghost mut gsv: Seq<EntV> = evs(stack@);
+    proof {
+        assert(stack@.len() == 1);
+        assert(gsv[0].path =~= Seq::<Seq<char>>::empty());
+        assert(link_ok(defs, gsv, 0));
+        assert(dfs_inv(defs, gsv, rec_stack.s(), visited.s()));
+    }
 @loop 3
-    invariant true,
-    decreases stack@.len(),
+    invariant
+        defs == self.defs(), g == dg_view(dep_graph.m()),
+        graph_ok(g, defs), fdefs_ok(fixture_defs.m(), defs),
+        cycles_ok(defs, cycles@), keys_ok(cycles@, seen_cycles.s()),
+        gsv == evs(stack@),
+        dfs_inv(defs, gsv, rec_stack.s(), visited.s()),
+    decreases dfs_a(g, rec_stack.s(), visited.s()), dfs_b(g, gsv),
+@loopstart 3
+    let ghost sv0 = gsv;
+    let ghost rec0 = rec_stack.s();
+    let ghost vis0 = visited.s();
+    let ghost e = sv0.last();
+    let ghost cycles0 = cycles@;
+    let ghost seen0 = seen_cycles.s();
+    proof {
+        assert(sv0.len() > 0);
+        assert(evs(stack@) =~= sv0.drop_last());
+        // the popped entry: its node, index and path are what the loop body works on
+        assert(e.node == current@ && e.idx == idx as int);
+        assert(e.path == strs_v(path@));
+        lemma_mid(defs, sv0, rec0, vis0);
+    }
+@before continue 2
+    proof {
+        // a node is never pushed while it is on the recursion stack: this block is unreachable
+        assert(false);
+    }
+@before deps 1
+    let ghost cp = cur_path(e);
+    let ghost rec1 = cur_rec(e, rec0);
+    proof {
+        assert(strs_v(path@) =~= cp);
+        assert(rec_stack.s() =~= rec1);
+        assert(cycles@ == cycles0 && seen_cycles.s() == seen0);
+    }
+@before continue 3
+    proof {
+        lemma_step_pop(defs, sv0, rec0, vis0, vis0);
+        lemma_meas_none(g, sv0, rec0, vis0);
+        gsv = sv0.drop_last();
+    }
+@after dep 1
+    let ghost dep_v = g[e.node][e.idx];
+    proof {
+        assert(g[e.node] == strs_v(deps@));
+        assert(dep_v == dep@);
+    }
+@after dep 3
+    proof {
+        // the dependency is on the recursion set, hence on the current path: `position` finds it
+        lemma_cycle(defs, g, sv0, rec0, vis0);
+        let j = choose|j: int| 0 <= j < cp.len() && cp[j] == dep_v;
+        let y = path@.as_ref()[j];
+        assert(path@[j]@ == dep@);
+        assert(cycle_start_idx < path@.len() && path@[cycle_start_idx as int]@ == dep@);
+    }
+@after dep 4
+    let ghost cpv = strs_v(cycle_path@);
+    proof {
+        let i = cycle_start_idx as int;
+        assert(cp[i] == dep_v);
+        assert(cpv =~= cp.subrange(i, cp.len() as int).push(dep_v));
+        assert(is_closed_chain(defs, cpv));
+        assert(strs_v(cycle_path@.subrange(0, cycle_path@.len() - 1)) =~= cpv.drop_last());
+    }
+@after dep 5
+    proof {
+        assert(cycle_key_str@ == cyc_key(cpv));
+        if cycles@.len() > cycles0.len() {
+            let c = cycles@[cycles0.len() as int];
+            assert(cycles@ == cycles0.push(c));
+            assert(cyv(&c).path == cpv);
+            assert(cycle_ok(defs, cyv(&c)));
+        }
+        assert(cycles_ok(defs, cycles@));
+        assert(keys_ok(cycles@, seen_cycles.s()));
+    }
+@loopend 3
+    proof {
+        if idx < deps.len() {
+            let explore = !rec1.contains(dep_v0(g, e)) && !vis0.contains(dep_v0(g, e));
+            assert(g[e.node] == strs_v(deps@));
+            lemma_step_dep(defs, g, sv0, rec0, vis0, explore);
+            lemma_meas_dep(g, sv0, rec0, vis0, explore);
+            gsv = next_sv(sv0, dep_v0(g, e), explore);
+            assert(evs(stack@) =~= gsv);
+        } else {
+            lemma_step_pop(defs, sv0, rec0, vis0, vis0.insert(e.node));
+            lemma_meas_done(g, sv0, rec0, vis0);
+            gsv = sv0.drop_last();
+        }
+    }
 @*/
 }
 } // mod resolver
 use resolver::*;
+
+/// the dependency the popped entry looks at
+pub open spec fn dep_v0(g: Map<Seq<char>, Seq<Seq<char>>>, e: EntV) -> Seq<char> { g[e.node][e.idx] }
 } // verus!
 fn main() {}
